@@ -65,9 +65,9 @@ func jobsFor(prop, tier string) []Job {
 			}(),
 		}
 		if thorough {
-			js = append(js, mk("c02-n3-2cycles-ib2", params("N", 3, "CYCLES", 2, "KEYS", 2, "IBMAX", 2), true),
+			js = append(js, mk("c02-n3-2cycles", params("N", 3, "CYCLES", 2, "KEYS", 2, "IBMAX", 0, "BLKMAX", 0), true),
 				mk("c02-n4-1cycle-drain", params("N", 4, "CYCLES", 1, "KEYS", 2, "DRAIN", 1, "IBMAX", 0), false),
-				mk("c02-n2-2cycles-ops2", params("N", 2, "CYCLES", 2, "KEYS", 2, "OPS2", 1, "K0", 2), false))
+				mk("c02-n2-2cycles-ops2", params("N", 2, "CYCLES", 2, "KEYS", 2, "OPS2", 1, "K0", 2, "IBMAX", 0, "BLKMAX", 0, "KINDS", 2), false))
 		}
 	case "C03", "C04", "C14":
 		mk := func(name string, p map[string]int, crashes int, tears bool, eager bool, sched int) Job {
